@@ -59,6 +59,8 @@ def install(ex, log):
         def respond(e2):
             log().append(('sleep', a[2] if len(a) > 2 else None))
             if e2.choose(2, 'sleep_canceled') == 0: log().append(('cancel', 'sleep')); return ready(err(CANCELED))
+            hook = getattr(e2, 'during_sleep', None)
+            if hook is not None: hook(e2)
             return ready(ok(UNIT))
         return EnvFuture('sleep', respond)
     ex.model_path('zksync_concurrency::ctx::Ctx::sleep_until_deadline', sleep)
@@ -155,6 +157,19 @@ def check_acquire(rep, db):
         cur[0] = []
         s = sym_state(ex, mk)
         p = ex.fresh('p')
+        s['mid'] = None
+
+        def during_sleep(e2):
+            # bounded interference: while this acquire sleeps (it holds the acquire mutex, so no other acquire runs), ONE holder of an
+            # earlier permit drops it — the real Permit::drop, at some instant before the wake-up
+            if e2.choose(2, 'drop_during_sleep') == 1: return
+            T0, P0, R0 = post_state(s)
+            q = e2.fresh('dropped_permits'); e2.assume(z3.And(q.e >= 1, q.e <= R0.e))
+            permit = mk.adt(L + 'Permit', permits=q, limiter=Ref(Cell(s['lim'])), ctx=Ref(Cell(Opaque('ctx'))))
+            e2.call_by_name(r'<zksync_concurrency::limiter::Permit<\'_> as std::ops::Drop>::drop', [Ref(Cell(permit))])
+            s['mid'] = post_state(s)
+            cur[0].append(('interference',))
+        ex.during_sleep = during_sleep
         r = coro.run_async(ex, key, [Ref(Cell(s['lim'])), Ref(Cell(Opaque('ctx'))), p])
         return s, p, r, list(cur[0])
     res = explore(ex, body, budget_s=600); rep.absorb_stats(ex.stats)
@@ -185,10 +200,14 @@ def check_acquire(rep, db):
             if slept:
                 order_ok = [e[0] for e in lg].index('sleep') < ([e[0] for e in lg].index('state_write') if 'state_write' in [e[0] for e in lg] else 10 ** 6)
             unlimited = z3.And(rf <= 0, got.e == 0, T2.e == T, P2.e == P, R2.e == R)
-            grant = z3.And(rf > 0, p.e <= B, got.e == p.e, R2.e == R + p.e, R2.e <= P2.e, P2.e <= B, T2.e >= T, T2.e == z3.If(need >= T, need, T),
-                           P2.e == z3.If(need >= T, z3.If(P + (need - T) <= B, P + (need - T), B), P),
+            # the state the post-sleep step starts from: the pre-state, or — if another holder dropped its permit during the
+            # sleep — the state that drop left (the drop itself is decided by the drop lemma); the drop happened before the wake-up
+            Tm, Pm, Rm = (s['mid'][0].e, s['mid'][1].e, s['mid'][2].e) if s.get('mid') else (T, P, R)
+            extra_assume = (Tm <= need) if s.get('mid') else z3.BoolVal(True)
+            grant = z3.And(rf > 0, p.e <= B, got.e == p.e, R2.e == Rm + p.e, R2.e <= P2.e, P2.e <= B, T2.e >= Tm, T2.e == z3.If(need >= Tm, need, Tm),
+                           P2.e == z3.If(need >= Tm, z3.If(Pm + (need - Tm) <= B, Pm + (need - Tm), B), Pm),
                            z3.BoolVal(slept) == (need > 0), z3.BoolVal(bool(order_ok)))
-            good = z3.Or(unlimited, grant)
+            good = z3.Or(unlimited, grant, z3.Not(extra_assume))
             key_ = 'acquire-grant'; text = f'a granted acquire (events {evs}) does not reserve exactly the requested permits out of refreshed ones, writes the state before sleeping, or grants above burst'
         st, m = solve(pc, z3.Not(good))
         if st == 'sat': viol.append((key_, text, m))
